@@ -46,6 +46,10 @@ def handleJsonVal : Handler := fun op args =>
     let env ← decEnv tbl
     let v ← Value.ofSexp v; let t ← Ty.ofSexp t
     pure s!"{Sexp.encBool (rtHypsCore env v t)} {Sexp.encBool (setFree v.ty)} {Sexp.encBool (exact t v.ty v.v)}"
+  | "json.same", [a, b] => do
+    -- the specification of "equal value" against the real RawEquals (same type, set-free)
+    let a ← Value.ofSexp a; let b ← Value.ofSexp b
+    pure (toString (Sexp.encBool (sameP a.v b.v)))
   | "json.docok", [tbl, j] => do
     let env ← decEnv tbl
     let j ← Json.ofSexp j
